@@ -25,9 +25,11 @@ package common
 
 // ───────────── address.go ─────────────
 //@ -- Address.String: total; a function of the two public keys only (pure: used as a map key in the node and custodian validators)
+//@ -- (C32) its value: "XIN" + base58 of spend ++ view ++ first 4 bytes of sha3("XIN" ++ spend ++ view); AddrString: zz_contracts_c32_verif.go
 //@ func (a Address) String
-//@   property C05
+//@   property C05, C32
 //@   pure
+//@   ensures [format] result == AddrString(seq(a.PublicSpendKey), seq(a.PublicViewKey))
 
 // ───────────── transaction.go ─────────────
 
